@@ -47,7 +47,7 @@ def attrs(t):
     return {k: (v if not isinstance(v, list) else list(v)) for k, v in t.__dict__.items() if k not in ("parent_workflow",)}
 
 
-def one(tmpdir, d, absence, how, remove, u_sub, u_parent, position, tag, prior=None):
+def one(tmpdir, d, absence, how, remove, u_sub, u_parent, position, tag, prior=None, via_json=False, parent_abs=None):
     out = []
     path, sub_time, sub_status = make_sub(tmpdir, d, absence, how, u_sub, tag)
     n_abs_in = len([a for a in set(absence) if a < sub_time])
@@ -79,6 +79,44 @@ def one(tmpdir, d, absence, how, remove, u_sub, u_parent, position, tag, prior=N
         out.append(("C20:work-amount-is-not-the-sub-project-duration" + (":absence-removed" if remove else ""), {"default_work_amount": t.default_work_amount, "expected": dur, "sub_time": sub_time, "absence": list(absence)}))
         return out, None
     t.set_work_amount_progress_of_unit_step_time(m.project.unit_timedelta)
+    if via_json:
+        # the configured parent is saved, loaded into a new project and related to the parent's unit again there
+        path2 = os.path.join(tmpdir, "parent-%s.json" % tag)
+        try:
+            m.project.write_simple_json(path2)
+            p2 = BaseProject()
+            p2.read_simple_json(path2)
+            m = S.adopt(p2)
+            t = m.byname["SUB"]
+            t.set_work_amount_progress_of_unit_step_time(m.project.unit_timedelta)
+        except Exception as e:
+            return out + [("C20:reload-of-configured-parent-raised:%s" % type(e).__name__, {"error": repr(e)})], None
+    if parent_abs:
+        # parent run with project-wide absence steps and the automatic-task flag set: the sub-project task (an automatic
+        # task) progresses at every step from the one its dependencies allow, absence steps included
+        try:
+            m.project.simulate(max_time=400, absence_time_list=list(parent_abs), perform_auto_task_while_absence_time=True)
+        except Exception as e:
+            return out + [("C20:parent-simulate-raised:%s" % type(e).__name__, {"error": repr(e)})], None
+        rem = list(t.remaining_work_amount_record_list)
+        rate = u_parent / float(u_sub)
+        start = 0
+        if position == "after-pred":
+            # the predecessor (work 2, one worker) only works at non-absence steps
+            done, k = 0, 0
+            while done < 2:
+                if k not in parent_abs:
+                    done += 1
+                k += 1
+            start = k
+        want = int(math.ceil(dur * u_sub / float(u_parent) - 1e-9))
+        prog = [k for k in range(len(rem)) if (rem[k - 1] if k else float(dur)) - rem[k] > 1e-9]
+        det = {"sub_duration": dur, "u_sub": u_sub, "u_parent": u_parent, "position": position, "parent_absence": list(parent_abs), "remaining_log": rem[:12], "progress_steps": prog, "expected_start": start, "expected_steps": want}
+        if int(m.project.status) != 1:
+            out.append(("C20:parent-did-not-complete", det))
+        elif prog != list(range(start, start + want)):
+            out.append(("C20:sub-project-task-progress-steps-wrong-with-absence-and-auto-flag", det))
+        return out, want
     try:
         m.project.simulate(max_time=400, absence_time_list=[])
     except Exception as e:
@@ -107,10 +145,13 @@ def work(chunk):
     col = engines.Collector()
     tmpdir = tempfile.mkdtemp(prefix="verif-c20-")
     try:
-        for d, absence, how, remove, u_sub, u_parent, position, prior in chunk:
+        for case in chunk:
+            d, absence, how, remove, u_sub, u_parent, position, prior = case[:8]
+            via_json = bool(case[8]) if len(case) > 8 else False
+            parent_abs = case[9] if len(case) > 9 else None
             tag = "%d" % os.getpid()
-            got, want = one(tmpdir, d, absence, how, remove, u_sub, u_parent, position, tag, prior)
-            key = (d, tuple(absence), how, remove, u_sub, u_parent, position, prior)
+            got, want = one(tmpdir, d, absence, how, remove, u_sub, u_parent, position, tag, prior, via_json, parent_abs)
+            key = (d, tuple(absence), how, remove, u_sub, u_parent, position, prior, via_json, tuple(parent_abs) if parent_abs else None)
             col.evaluations += 1
             col.checks["c20." + how] += 1
             col.states.add(hash(key))
@@ -145,6 +186,17 @@ def items(tier):
                 for prior in (True, False):
                     out.append((d, ab, "success", remove, 1, 1, "alone", prior))
                     out.append((d, ab, "success", remove, 3, 2, "after-pred", prior))
+        # day-sized and 36-hour units; the configured parent saved, loaded and related again; parent runs with absence steps
+        for us, up in ((1440, 60), (1440, 360), (2160, 360), (60, 1440), (1440, 1440)):
+            for pos in ("alone", "after-pred"):
+                out.append((d, (), "success", True, us, up, pos, None))
+                out.append((d, (), "success", True, us, up, pos, None, True))
+        for us, up in ((1, 1), (3, 2), (2, 3), (60, 20)):
+            for pos in ("alone", "after-pred", "before-succ"):
+                out.append((d, (1,), "success", False, us, up, pos, None, True))
+            for pabs in ((0, 1), (0, 1, 4, 5), (2,)):
+                for pos in ("alone", "after-pred"):
+                    out.append((d, (), "success", True, us, up, pos, None, False, pabs))
         for how in ("failure", "never"):
             for remove in (True, False):
                 out.append((d, (), how, remove, 1, 1, "alone", None))
@@ -160,7 +212,8 @@ def run(tier, seed):
         "level": "exploration",
         "rule": "exhaustive grid: sub-projects of duration 1..%d x absence lists (none, step 0, step 1, consecutive, duplicated, beyond the end) saved after success / after FAILURE / never simulated "
         "x remove_absence_time_list x every ordered pair of unit times from {1,2,3,5,60} min x position of the sub-project task in the parent (alone, after an FS predecessor, before a successor, beside a worked task) x history (first use of the saved file, or after another task was "
-        "configured from the same file with either flag); "
+        "configured from the same file with either flag) x (the configured parent used directly, or saved, loaded and related again; units up to 36 hours) x (parent without absence, or with "
+        "project-wide absence steps and the automatic-task flag set); "
         "oracle: work amount = duration (minus in-range absence steps if requested), WORKING for exactly ceil(duration*u_sub/u_parent) consecutive parent steps from the step dependencies allow, no workers, "
         "successor waits; refusal (warning, task unchanged) for unsuccessful/never simulated sub-projects; non-trivial = successful grid points with different unit times" % (4 if tier == "quick" else 6),
         "bounds": {"grid_points": len(its)},
@@ -172,8 +225,9 @@ def run(tier, seed):
 def replay(v):
     tmpdir = tempfile.mkdtemp(prefix="verif-c20-")
     try:
-        d, ab, how, remove, us, up, pos, prior = v["case"]
-        got, want = one(tmpdir, d, tuple(ab), how, remove, us, up, pos, "replay", prior)
+        c = list(v["case"]) + [False, None]
+        d, ab, how, remove, us, up, pos, prior, vj, pabs = c[:10]
+        got, want = one(tmpdir, d, tuple(ab), how, remove, us, up, pos, "replay", prior, bool(vj), tuple(pabs) if pabs else None)
         return [{"sig": s, "detail": dd} for s, dd in got]
     finally:
         shutil.rmtree(tmpdir, ignore_errors=True)
